@@ -426,6 +426,12 @@ class MatInterp:
                     if 'input validation guards are assumed to pass' not in self.cx.notes:
                         self.cx.notes.append('input validation guards are assumed to pass')
                     continue
+                if tv is None and s.orelse and ((s.body and isinstance(s.body[-1], ast.Raise)) != (isinstance(s.orelse[-1], ast.Raise))):
+                    # the same guard in two-branch form: one branch only rejects, the other carries on
+                    if 'input validation guards are assumed to pass' not in self.cx.notes:
+                        self.cx.notes.append('input validation guards are assumed to pass')
+                    self.block(s.orelse if isinstance(s.body[-1], ast.Raise) else s.body, env, fn)
+                    continue
                 if tv is None and getattr(self, 'forced', None) is not None:
                     # path exploration: the caller decides the data-dependent tests in order (and records which ones were met)
                     self.met_tests.append(norm(s.test)[:60])
